@@ -16,6 +16,12 @@ CHECKS = {
  "C13": dict(cat="fault_enumeration", technique="deviation-bounded exhaustive enumeration of structure-aware mutations of real modules (every field / operand x boundary values, every opcode replacement, count-boundary and raw-prefix families, arithmetic operand matrix), each run through the real loader, verifier and fuel-limited VM under ASan/UBSan with fork+bisection",
              text="Each of ~87,000 (quick) well-checksummed hostile images is one deviation away from a compiler-produced module (or a member of the raw-prefix / table-count / arithmetic families) and is pushed through the real nvm_deserialize, nvm_verify and, when accepted and import-free, vm_execute under an instruction budget (hook H1) in an ASan+UBSan build; any sanitizer report, signal, timeout, or a decode/invalid-opcode error at an instruction boundary the verifier walked is a violation, attributed to a single element by bisection, replayed twice, and grouped by cause signature. thorough adds all pairs of operand deviations within a function.",
              note="boundary value pools, one deviation (thorough: two); modules with imports are loaded and verified only; malloc failure emulated for requests > 1 GiB; clang sanitizers trusted", ref="DESIGN.md §4 C13"),
+ "C01": dict(cat="model_checking", technique="small-scope exhaustive enumeration of typed programs (expression trees, statement sequences, function/data/aliasing/module shapes) executed on both real backends with a differential oracle; batch bisection isolates single programs",
+             text="Every program below the stated bounds (all typed expression trees of depth<=2 over small leaf pools, all statement sequences/nestings of the statement alphabet, function-value/recursion/scoping shapes, data and aliasing operation sequences, 7 multi-file module shapes, an exit-status family; ~6,400 programs quick, ~65,000 thorough) is compiled by the real nanoc + C compiler and run, and run by nano_virt --run; stdout bytes (cut per program between marker lines) and exit status must be equal. The enumeration is exhaustive within the bounds, nothing is sampled; NanoRef only filters programs that leave the defined domain.",
+             note="bounded program size and value pools (small-scope hypothesis); floats compared not printed; no string escapes; gcc and the kernel trusted", ref="DESIGN.md §4 C01"),
+ "C02": dict(cat="model_checking", technique="the same exhaustive program enumeration plus the full operator x boundary-operand matrix and the effect-order matrix, every engine (native, VM) in both notations judged against NanoRef, an independent executable transcription of the specification",
+             text="For every enumerated program the reference interpreter NanoRef (written from SPECIFICATION.md 4-8: strict left-to-right, short-circuit, static scoping and block shadowing, for = while desugaring, 64-bit wrap, truncating division) computes the prescribed output; the native binary and the VM, each fed the prefix and the infix spelling, must print exactly that. All 13 binary operators x all ordered pairs of a 13-14 value boundary pool and every operator/call/literal with effectful operands are included. Disagreement of one engine is a violation; engines agreeing with each other but not with the reference is flagged for oracle triage.",
+             note="NanoRef is trusted as the reading of the spec (its self-test replays the spec's own examples); x/0, x%0, INT64_MIN/-1 are outside the defined domain; the Coq relation is covered only where it coincides with the 64-bit spec", ref="DESIGN.md §4 C02"),
 }
 NA_REASON = "check not built yet in this round (planned, see DESIGN.md §9); no claim is made"
 def main():
